@@ -748,6 +748,48 @@ def run(chk, facts, tier, only=None):
                    f"(insert: {len(ins)}, recursive calls: {len(rec)}, removes after them: {len(rem)}); otherwise a second, non-recursive mention of a "
                    f"definition is sized as infinite, the recursive alternative ties with the base case and generation runs past the depth limit",
                    where=f"{sh['span']['file']}:{vrow[0]['ln']}", ok_detail="seen.insert(id) … size_helper(..) … seen.remove(id)")
+        # the budget of a recursive walk is installed once: a depth / size taken from a matching config entry is applied when the entry's
+        # element is met for the first time on the path, never again on re-entry (labels and types alike) — else every round of the
+        # cycle gets a fresh budget.  The guard of those assignments in merge_config is evaluated for every kind of context.
+        mc = cp.fn(GC + "merge_config$")
+        chk.analysed(mc["key"])
+        from c11_util import Interp as _I2, NotEvaluable as _NE3
+        tgt_if = None
+        for st_ in (mc["body"].get("stmts") or []) + ([mc["body"]["e"]] if mc["body"].get("e") else []):
+            s0 = st_.get("e") if st_.get("k") == "semi" else st_
+            if isinstance(s0, dict) and s0.get("k") == "if" and any(
+                    a.get("k") == "assign" and a["a"].get("k") == "field" and a["a"]["n"] in ("depth", "size") for a in walk(s0["t"])):
+                cnd0 = unblock(s0["c"])
+                if not (cnd0.get("k") == "mcall" and cnd0["m"] == "is_some" and "config" in (expr_path(cnd0["recv"]) or "")):
+                    tgt_if = (st_, s0)
+        if tgt_if is None:
+            raise AnchorMissing("merge_config: the guarded block that installs depth / size was not found")
+        SE = "candid_parser::configs::StateElem::"
+        ctxs = {"none": None}
+        for rec_ in (False, True):
+            for el_ in ("Type", "TypeStr", "Label"):
+                ctxs[f"{el_}/{'reentry' if rec_ else 'first'}"] = ("Some", ("struct", {"elem": ("enum", SE + el_, ["x"]), "is_recursive": rec_}))
+        got_ = {}
+        try:
+            for nm_, cv in ctxs.items():
+                it2 = _I2(cp)
+                env2 = {"ctx": cv}
+                for st_ in (mc["body"].get("stmts") or []):
+                    if st_ is tgt_if[0]:
+                        break
+                    if st_.get("k") == "slet" and st_.get("init") is not None and any(
+                            (x.get("res") or {}).get("path") == "ctx" for x in walk(st_["init"]) if x.get("k") == "path"):
+                        it2.bind(st_["pat"], it2.ev(st_["init"], env2), env2)
+                got_[nm_] = bool(it2.ev(tgt_if[1]["c"], env2))
+            want_ = {nm_: (cv is not None and cv[1][1]["is_recursive"] is False) for nm_, cv in ctxs.items()}
+            diff_ = {k_: v_ for k_, v_ in got_.items() if want_[k_] != v_}
+            chk.expect(not diff_, "budget:installed-once-per-path",
+                       f"GenConfig::merge_config installs a configured depth / size when the context is {sorted(k_ for k_, v_ in got_.items() if v_)}; it must do so "
+                       f"exactly for a first visit (any element kind) and never on re-entry: deviating cases {diff_}. A budget re-installed on every "
+                       f"round of a recursive type never runs out", where=f"{mc['span']['file']}:{tgt_if[1].get('ln')}",
+                       ok_detail="installed iff the context exists and is not a re-entry (evaluated for 7 contexts)")
+        except _NE3 as e_:
+            raise AnchorMissing(f"merge_config: the guard of the depth / size block is outside the evaluable fragment: {e_}")
         # the cut-off tests read the same two fields
         h = any_fn()
         cut = {}
